@@ -41,6 +41,32 @@ _HO_NOTE = (" Call-out discipline for K1: wherever the real code subscribes to a
             "on_next from an arbitrary state, then run from an arbitrary later state in which that member is live.")
 
 CHECKS_K1 = {
+    "C15": {
+        "text": "K1-T contracts (virtual time: one instant per step, timers compared by their due instants, timer and handler families). "
+                "delay (observable_delay_timespan, relative and absolute due time): the source reaches the handler through the callee "
+                "contracts of materialize and timestamp (C05 / C15); the real queue of time-stamped notifications IS the spec's sequence of "
+                "(notification, due = arrival + d) records; the spec machine is written over three recursive functions of that queue "
+                "(the elements of the due prefix, whether that prefix reaches the completion, what is left) whose defining equations are "
+                "instantiated on the ground terms; the first record arms the timer for d when idle, every tick delivers exactly the due "
+                "prefix in order - the drain loop is cut at a loop invariant that also covers the iterations after the completion was "
+                "delivered - and re-arms for the head that is left, or goes idle; an error is delivered at once and drops what is "
+                "pending. Queue well-formedness (a completion record is the last record; none while the source is live) is part of the "
+                "invariant: its preservation under append uses two snoc lemmas that are proved by structural induction (seqlemma unit). "
+                "A subscription leaves the operator's parameters unchanged (absolute due times are re-based per subscription). "
+                "delay_with_mapper_ (mapper form): every element is held in the composite until mapper(x) first emits or completes - "
+                "handler family per element, identity = the held element - then delivered exactly once: a member that has delivered is deaf "
+                "to whatever its source still sends (obligation 'a-spent-member-is-deaf', which found defect 7685592); completion when the "
+                "source completed and nothing is held. delay_subscription_: the subscriber itself is handed to the source by a timer "
+                "set at subscription for d (or the absolute instant). timestamp_ / time_interval_: each element with the clock reading of "
+                "its step / the time since the previous element or the subscription.",
+        "note": _K1_NOTE + _HO_NOTE + " A-time / A-time-step as in C16; absolute times are tagged integers. A-exc: an exception object is not None (its truth "
+                "value is arbitrary - the obligation that found defect 1fc92af). The induction schema of the snoc lemmas is instantiated by "
+                "the generator. NOT under contract: delay_with_mapper with a subscription-delay observable (the source is subscribed when it "
+                "first fires). Thorough tier: must-fail mutants and timedrun.py (TestScheduler grid against references written from the "
+                "property text) as cross-check of delay / delay_subscription / timestamp / time_interval; numeric virtual clock only (the "
+                "datetime clock of HistoricalScheduler is the same code under A-time).",
+        "technique": "K1 handler refinement in virtual time with timer / handler families, recursive sequence functions with ground unfolding, loop invariants, K8 snoc lemmas by induction, SMT",
+    },
     "C18": {
         "text": "The window operators under K1 / K1-T contracts with their own subjects used through the Subject contract (C20; calls on a "
                 "window's subject are events of its channel, compared with the spec's in order: receiver, kind, payload) and the windows "
